@@ -148,6 +148,26 @@ def _caller_guarded(E: Engine, f: FunctionInfo, attr: str) -> Optional[str]:
     return "guarded at every call site (" + ", ".join(sorted(set(descr))) + f"): `<receiver>.{attr} is not None`"
 
 
+def _callers_excepted(E: Engine, f: FunctionInfo, attr: str, exceptions: dict[str, str], depth: int = 0) -> Optional[str]:
+    """``f`` is a private helper and every function calling it is excepted for ``attr`` (the exception's
+    reason -- how the function is reached -- then covers the helper too)."""
+    if not f.name.startswith("_") or f.name.startswith("__") or depth > 2:
+        return None
+    sites = E.callers_of(f)
+    if not sites:
+        return None
+    found = None
+    for caller, _e in sites:
+        k = f"{caller.short}|{attr}"
+        if k in exceptions:
+            found = k
+        elif (k2 := _callers_excepted(E, caller, attr, exceptions, depth + 1)) is not None:
+            found = k2
+        else:
+            return None
+    return found
+
+
 def check(E: Engine, rep: Report, rule: str, class_quals: list[str], functions: list[FunctionInfo], exceptions: dict[str, str]) -> dict:
     opt = optional_fields(E, class_quals)
     n_uses = 0
@@ -203,6 +223,9 @@ def check(E: Engine, rep: Report, rule: str, class_quals: list[str], functions: 
                 rep.ok(rule, key + "|" + vc.split("(")[0], f"{norm(n)} used in {vc}: {cg}", where)
             elif key in exceptions:
                 rep.excepted(rule, key + "|" + vc.split("(")[0], exceptions[key], where)
+            elif (ck := _callers_excepted(E, f, n.attr, exceptions)) is not None:
+                # a private helper reached only from functions that hold the exception
+                rep.excepted(rule, key + "|" + vc.split("(")[0], exceptions[ck] + f" [private helper {f.short}, reached only from the excepted function]", where)
             else:
                 rep.violation(
                     rule, key + "|" + vc.split("(")[0],
